@@ -173,14 +173,10 @@ theorem finishInfo_data (st : Settings α) (L : LoopSt α) : (finishInfo st L).d
   dsimp only
   split <;> rfl
 
-/-- `solve()` never writes the (internal) problem data: the second solve on the same object sees
-the data of the first -/
-theorem solve_data {S : Solver α} {st : Settings α} {r : SolveResult α} (h : S.solve st = .ok r) :
-    r.S.st.data = S.st.data := by
-  unfold Solver.solve at h
-  obtain ⟨L, hL, h⟩ := bind_ok_inv h
-  obtain ⟨p, hp, h⟩ := bind_ok_inv h
-  cases h
+/-- the loop and `finish` of a `solve()` never write the (internal) problem data -/
+theorem runSolve_finish_data {S : SolverSt α} {st : Settings α} {L : LoopSt α} {sol : Unscale.Solution α}
+    {p : SolverSt α × Unscale.Solution α} (hL : S.runSolve st = .ok L) (hp : finish st L sol = .ok p) :
+    p.1.data = S.data := by
   unfold finish at hp
   obtain ⟨u, hu, hp⟩ := bind_ok_inv hp
   cases hp
@@ -203,5 +199,24 @@ theorem solve_data {S : Solver α} {st : Settings α} {r : SolveResult α} (h : 
     show S0.data = _
     rw [defaultStart_frame hds]
     rfl
+
+/-- **what `solve()` does to the (internal) problem data**: nothing but FILL THE TWO NORM CACHES —
+the data of the returned object is `get_normq(); get_normb()` (`fillNorms`) applied to the data at
+entry.  (`DefaultInfo::update` makes these two calls at the top of every pass.) -/
+theorem solve_data {S : Solver α} {st : Settings α} {r : SolveResult α} (h : S.solve st = .ok r) :
+    fillNorms S.st.data = .ok r.S.st.data := by
+  obtain ⟨L, p, d, hL, hp, hd, rfl⟩ := solve_ok_inv h
+  rw [runSolve_finish_data hL hp] at hd
+  exact hd
+
+/-- `solve_data`, spelled out: the caches become `some` of what `get_normq` / `get_normb` answer on
+the data at entry; every other field of the data is unchanged -/
+theorem solve_data_eq {S : Solver α} {st : Settings α} {r : SolveResult α} (h : S.solve st = .ok r) :
+    ∃ nq nb, Info.getNormq S.st.data.normq S.st.data.q S.st.data.equilibration.dinv
+        S.st.data.equilibration.c = .ok nq
+      ∧ Info.getNormb S.st.data.normb S.st.data.b S.st.data.equilibration.einv = .ok nb
+      ∧ r.S.st.data = { S.st.data with normq := some nq, normb := some nb } :=
+  fillNorms_ok_inv (solve_data h)
+
 end
 end Clarabel.Solver
